@@ -5,6 +5,7 @@ package snowflake_client
 
 import (
 	"errors"
+	"net/http"
 
 	"github.com/pion/webrtc/v3"
 
@@ -32,7 +33,12 @@ func (r *verifRendezvous) Exchange(b []byte) ([]byte, error) {
 func VerifC08_ClientCallSite() {
 	keep := verifapi.Bool("keepLocalAddresses")
 	t := webrtc.SDPType(verifapi.Concrete(verifapi.Choice("type", 4)) + 1)
-	bc := &BrokerChannel{Rendezvous: &verifRendezvous{}, keepLocalAddresses: keep}
+	// the channel is built by the real constructor from a client configuration in which every
+	// other boolean option is arbitrary too
+	bc, cerr := newBrokerChannelFromConfig(ClientConfig{BrokerURL: "https://broker.example/", KeepLocalAddresses: keep,
+		UTLSRemoveSNI: verifapi.Bool("utlsRemoveSNI"), FrontDomain: "front.example"})
+	verifapi.Assume(cerr == nil)
+	bc.Rendezvous = &verifRendezvous{}
 	_, err := bc.Negotiate(&webrtc.SessionDescription{Type: t, SDP: "ORIGINAL"})
 	verifapi.Assert(err != nil, "the stubbed broker is unreachable")
 	verifapi.Assert(verifSerialized != nil, "a description is serialised for the broker")
@@ -47,3 +53,8 @@ func VerifC08_ClientCallSite() {
 }
 
 func verifJSONMarshalNop(v interface{}) ([]byte, error) { return []byte("{}"), nil }
+
+func verifCreateBrokerTransport() http.RoundTripper { return nil }
+func verifNewHTTPRendezvous(broker, front string, transport http.RoundTripper) (*httpRendezvous, error) {
+	return &httpRendezvous{}, nil
+}
